@@ -5,8 +5,11 @@ import json, os, shutil, glob, re, subprocess
 root = '/verif'
 notes = json.load(open(f'{root}/seeded/notes.json')) if os.path.exists(f'{root}/seeded/notes.json') else {}
 rows = []
-for d in sorted(glob.glob('/tmp/mut/C??.out/[AB]')):
-    pid = os.path.basename(os.path.dirname(d))[:3]; x = os.path.basename(d); name = pid + x
+for d in sorted(glob.glob('/tmp/mut/C??.out/[AB]')) + sorted(glob.glob('/tmp/mut/C??.out2/[AB]')):
+    pid = os.path.basename(os.path.dirname(d))[:3]; x = os.path.basename(d)
+    if d.split('/')[-2].endswith('.out2'):
+        x = {'A': 'C', 'B': 'D'}[x]  # second round
+    name = pid + x
     if not os.path.exists(f'{d}/patch.diff') or not os.path.exists(f'{d}/meta.json'): continue
     conf = json.load(open(f'{d}/confirm.json')) if os.path.exists(f'{d}/confirm.json') else {}
     meta = json.load(open(f'{d}/meta.json'))
